@@ -237,6 +237,9 @@ template <class T> static bool judge_fmult(pbt::Ctx& c, T x, T m, const FR<T>& r
 	if (scale > (Q)std::numeric_limits<T>::max() / 4) return false;
 	// an exact multiple must come back unchanged ("x itself", and the documented formula subtracts fmod = 0): no tolerance there
 	const long double tol = exact ? 0.0L : 8.0L * fp::ulp_at<T>((long double)scale);
+	// conditioning: when the spacing of the multiples is itself within a few tolerances (|x|/m above ~2^17 in float) neither neighbour can be told
+	// from the other; such cases are counted, not judged
+	if (!exact && (long double)m < 8.0L * tol) { if (!vec) c.cls("multiple-below-resolution(not judged)"); return true; }
 	const char* ty = tn<T>();
 	const char* sc = fsign(x);
 	const char* k = fcat(sc, exact ? "exact" : "inexact");
